@@ -155,7 +155,9 @@ func (s *sys) observe() (kd, vd []string, cwdK, cwdV string) {
 	}
 
 	s.kdump = kd
-	s.key = strings.Join(kd, "\n") + "\ncwd=" + cwdK
+	// the scratch directory carries the worker's pid: it must not reach the key,
+	// or states found by different workers are never recognised as equal
+	s.key = strings.ReplaceAll(strings.Join(kd, "\n")+"\ncwd="+cwdK, base, "B")
 
 	return
 }
